@@ -16,11 +16,33 @@ import (
 )
 
 // a literal case: NoFormat file `var x = <lit>` so that raw bytes are compared (L1)
+// The literal is built through each of the three call forms in turn (case after case): as a method
+// of the statement chain, by the package function (`….Add(Lit(v))`), and as a method of a Group
+// (inside a delimiter-less CustomFunc: `g.Lit(v)`).  All three lines read `var x = <lit>`.
+var litFormCounter int
+
+var litFormForced = -1
+
+func litRHS(l Lit) SItem {
+	litFormCounter++
+	form := (litFormCounter + litFormCounter/3) % 3
+	if litFormForced >= 0 {
+		form = litFormForced
+	}
+	switch form {
+	case 1:
+		return &AddItems{Args: []Arg{st(l)}}
+	case 2:
+		return &CustomFunc{Items: []FuncItem{{Wrapped: false, A: st(l)}}}
+	}
+	return l
+}
+
 func litCase(id string, l Lit) *Case {
 	c := &Case{ID: id}
 	c.Ops = append(c.Ops, Op{Kind: OpFile, F: 0, Str: []string{"new", "", "p"}})
 	c.Ops = append(c.Ops, Op{Kind: OpSet, F: 0, Str: []string{"noformat", "1"}})
-	c.Ops = append(c.Ops, Op{Kind: OpFAdd, F: 0, Args: []Arg{st(kw("Var"), id2("x"), op("="), l)}})
+	c.Ops = append(c.Ops, Op{Kind: OpFAdd, F: 0, Args: []Arg{st(kw("Var"), id2("x"), op("="), litRHS(l))}})
 	c.Ops = append(c.Ops, Op{Kind: OpRender, F: 0})
 	return c
 }
@@ -339,7 +361,15 @@ func genStrCases(cx *CheckCtx) []*Case {
 		cs = append(cs, litCase(fmt.Sprintf("C12-%d-%d", cx.Seed, n), l))
 	}
 	for b := 0; b < 256; b++ {
-		add(mkByte(byte(b)))
+		// every byte value through every call form
+		for form := 0; form < 3; form++ {
+			for _, variant := range []string{"-plain", "-func"} {
+				litFormForced = form
+				n++
+				cs = append(cs, litCase(fmt.Sprintf("C12-%d-%d%s", cx.Seed, n, variant), mkByte(byte(b))))
+			}
+		}
+		litFormForced = -1
 		add(mkLit(string([]byte{byte(b)})))
 		add(mkLit("a" + string([]byte{byte(b)}) + "\"b"))
 	}
